@@ -52,6 +52,7 @@ type Draw struct {
 	Kind  string `json:"kind"`
 	Term  string `json:"term"`
 	Value string `json:"value"`
+	T     *Term  `json:"-"`
 }
 
 type PathSummary struct {
@@ -806,20 +807,24 @@ func (st *State) recordViolation(kind, id, msg string, pos token.Pos, unknown bo
 			}
 			for _, d := range st.draws {
 				dd := d
-				if dd.Term != "" {
-					var srt Sort
-					for _, dc := range st.decls {
-						if dc.Name == dd.Term {
-							srt = dc.Sort
+				if dd.T != nil || dd.Term != "" {
+					t := dd.T
+					if t == nil {
+						var srt Sort
+						for _, dc := range st.decls {
+							if dc.Name == dd.Term {
+								srt = dc.Sort
+							}
 						}
+						t = Var(dd.Term, srt)
 					}
-					val := st.evalTerm(Var(dd.Term, srt))
+					val := st.evalTerm(t)
 					switch x := val.(type) {
 					case bool:
 						dd.Value = fmt.Sprint(x)
 					case uint64:
 						if dd.Kind == "int" {
-							dd.Value = fmt.Sprint(signed(srt.W, x))
+							dd.Value = fmt.Sprint(signed(t.Sort.W, x))
 						} else {
 							dd.Value = fmt.Sprint(x)
 						}
